@@ -24,7 +24,7 @@ var c12Prims = map[string][4]string{
 }
 
 func checkC12(c *Check) {
-	c.Explanation = "Dynamic interpreter vs generated code — agreement of decision tables between the two implementations of the same formats (byte equality for all values needs execution and is not decided): (1) every primitive value class of internal/pure/onthefly reads and writes through the basictl primitive pair that the generated code uses for the same Go value type (NatRead/NatWrite for uint32, …; strings through StringRead / StringWriteLen+bytes+StringWritePadding and StringReadTL2 / TL2WriteSize+bytes), in TL1 and TL2; (2) the struct class decides TL1 field presence by the same rule as generated code — present iff there is no field mask or mask & (1 << bit) != 0 — identically in its reader and writer; (3) the TL2 slot numbering — block boundary at (fieldIndex+1)%8 == 0, presence bit 1 << ((fieldIndex+1)%8), bit 0 of block 0 = variant index — is the same expression in the interpreter's reader, its writer and the generator's template code; (4) the interpreter's TL2 object reader frames the body like the generated readers (size first, size > input rejected, zero size resets, body cut, block byte, variant index)."
+	c.Explanation = "Dynamic interpreter vs generated code — agreement of decision tables between the two implementations of the same formats (byte equality for all values needs execution and is not decided): (1) every primitive value class of internal/pure/onthefly reads and writes through the basictl primitive pair that the generated code uses for the same Go value type (NatRead/NatWrite for uint32, …; strings through StringRead / StringWriteLen+bytes+StringWritePadding and StringReadTL2 / TL2WriteSize+bytes), in TL1 and TL2; (2) the struct class decides TL1 field presence by the same rule as generated code — present iff there is no field mask or mask & (1 << bit) != 0 — identically in its reader and writer; (3) the TL2 slot numbering — block boundary at (fieldIndex+1)%8 == 0, presence bit 1 << ((fieldIndex+1)%8), bit 0 of block 0 = variant index — is the same expression in the interpreter's reader, its writer and the generator's template code; (4) the interpreter's TL2 object reader frames the body like the generated readers (size first, size > input rejected, zero size resets, body cut, block byte, variant index). (7) every TL2ElementCountError return of an interpreter ReadTL2 is guarded by the strict comparison of the generated readers: announced count (bits: count/8) greater than the remaining body bytes."
 	c.NotCovered = "arrays, dictionaries, unions and bit arrays of the interpreter beyond the shared basictl calls; JSON; equality of bytes for every value"
 	c.Trusted = []string{"go/types", "C33 for the primitives, C03/C13 for the generated readers"}
 	r := loadRepoFuncs(c, "./internal/pure/onthefly")
